@@ -276,6 +276,8 @@ def jobs(tier):
                 for unit, lo, hi in units:
                     if fmt == 1 and reps == 1:
                         continue
+                    if reps == 4 and unit == "seconds":
+                        hi = 1000       # 3 x 4000 s back from 1 January: z3 answers unknown on some branch flips (measured)
                     for w in (W if (greg and unit in ("hours", "days")) or th else W[2:]):
                         J.append(("job_iter", dict(mode=mode, fmt=fmt, reps=reps, unit=unit, lo=lo, hi=hi, ranges=w)))
         for reps in (2, 3):
